@@ -69,6 +69,7 @@ def urlquote(url: str) -> str:
 
 
 class OtherMagic:
+    @no_arg
     def DEFAULTSORT(self) -> str:
         """see https://en.wikipedia.org/wiki/Template:DEFAULTSORT"""
         return ""
@@ -307,6 +308,7 @@ class PageMagic:
     ARTICLEPAGENAME = SUBJECTPAGENAME
     ARTICLEPAGENAMEE = SUBJECTPAGENAMEE
 
+    @no_arg
     def REVISIONID(self):
         """[MW1.5+] The unique identifying number of a page, see Help:Diff."""
         return str(self.the_revisionid)
@@ -366,25 +368,30 @@ class PageMagic:
 
 
 class NumberMagic:
+    @no_arg
     def NUMBEROFARTICLES(self):
         """A variable which returns the total
         number of articles on the Wiki."""
         return "0"
 
+    @no_arg
     def NUMBEROFPAGES(self):
         """[MW1.7+] Returns the total number of pages."""
         return "0"
 
+    @no_arg
     def NUMBEROFFILES(self):
         """[MW1.5+] Returns the number of uploaded
         files (rows in the image table)."""
         return "0"
 
+    @no_arg
     def NUMBEROFUSERS(self):
         """[MW1.7+] Returns the number of registered
         users (rows in the user table)."""
         return "0"
 
+    @no_arg
     def CURRENTVERSION(self):
         """[MW1.7+] Returns the current version of MediaWiki being run. [5]"""
         return "1.7alpha"
@@ -675,7 +682,7 @@ def _populate_dummy():
     magic_resolver = MagicResolver()
 
     def get_dummy(name):
-        def resolve():
+        def resolve(*args):
             log.warn(f"using dummy resolver for {name}")
             return ""
 
